@@ -9,6 +9,7 @@
 -/
 import DD.Driver
 import DD.Auto
+import DD.ApiXCopy
 open Std
 
 namespace DD
@@ -239,6 +240,14 @@ def stepA (op : String) (args : List String) (outs : List Nat) : AM DRes :=
     match parseHandle? s, parseHandle? o with
     | some s, some o => do return .bool (← fEq s o)
     | _, _ => bad
+  | "f_cmp_other", [op, s, x], [] =>
+    match parseHandle? s with
+    | some s => do return .bool (← fCmpOther op s (if x == "None" then .none_ else .other))
+    | none => bad
+  | "f_xor", [s, o], [] =>
+    match parseHandle? s, parseHandle? o with
+    | some s, some o => do return .int (← fXor s o)
+    | _, _ => bad
   | "f_ne", [s, o], [] =>
     match parseHandle? s, parseHandle? o with
     | some s, some o => do return .bool (← fNe s o)
@@ -314,6 +323,64 @@ def runA2 (s : ASess) (src dst : Nat) (x : AMgr → AM DRes) : ASess × String :
     ({ ms := s.ms.insert dst a'.m, regs := s.regs.insert dst a'.handles }, showOut r)
   | _, _ => (s, "err BAD-MGR")
 
+/-- the source's `_ref` at every `target.var(...)` of a copy, as differences from its value
+before the call: `k:d;k:d/…` -/
+def showXLog (ref0 : List (Nat × Nat)) (log : List (List (Nat × Nat))) : String :=
+  joinWith "/" (log.map fun snap =>
+    joinWith ";" (snap.filterMap fun (k, v) =>
+      let v0 := (ref0.lookup k).getD 0
+      if v = v0 then none else some s!"{k}:{(v : Int) - (v0 : Int)}"))
+
+/-- `dd._copy.copy_bdd` / `copy_bdds_from` between two sessions: the recorded schedule belongs to
+the TARGET (the only manager that can reorder during the call); both sessions are written back -/
+def runX (s : ASess) (src dst : Nat) (sched : List SchedItem) (withLog : Bool)
+    (x : AMgr → AMgr → Except Err DRes × XSt) : ASess × String :=
+  match s.ms[src]?, s.ms[dst]? with
+  | some ms, some md =>
+    let asrc : AMgr := { m := ms, handles := (s.regs[src]?).getD {}, foreign := foreignOf s src }
+    let adst : AMgr := { m := { md with sched := sched }, handles := (s.regs[dst]?).getD {},
+                         foreign := foreignOf s dst }
+    let (r, st) := x asrc adst
+    let left := !st.dst.m.sched.isEmpty && (match r with | .ok _ => true | .error _ => false)
+    ({ ms := (s.ms.insert src st.src.m).insert dst { st.dst.m with sched := [] },
+       regs := (s.regs.insert src st.src.handles).insert dst st.dst.handles },
+     showOut r ++ (if withLog && (match r with | .ok _ => true | .error _ => false)
+         then " log=" ++ showXLog ms.ref.toList st.log else "")
+       ++ (if left then " SCHED-LEFT" else ""))
+  | _, _ => (s, "err BAD-MGR")
+
+def showAliased (l : List (Int × Option Nat)) : String :=
+  joinWith "," (l.map fun (r, al) => match al with
+    | none => toString r
+    | some j => s!"{r}@{j}")
+
+def isXCopyOp (op : String) : Bool := op == "a_xcopy" || op == "a_xcopy_from"
+
+/-- `a_xcopy <hu> <dst> [log] -> h`, `a_xcopy_from <hu,hu,…> <dst> [log] -> h h …` -/
+def stepXCopy (s : ASess) (id : Nat) (sched : List SchedItem) (op : String) (args : List String)
+    (outs : List Nat) : ASess × String :=
+  let (args, withLog) := match args.getLast? with
+    | some "log" => (args.dropLast, true)
+    | _ => (args, false)
+  match op, args, outs with
+  | "a_xcopy", [u, dst], [h] =>
+    match parseHandle? u, parseNat? dst with
+    | some u, some dst =>
+      if id = dst then (s, "err BAD-LINE") else
+      runX s id dst sched withLog fun src d =>
+        match aXCopyRun src d u h with
+        | (r, st) => (r.map DRes.int, st)
+    | _, _ => (s, "err BAD-LINE")
+  | "a_xcopy_from", [us, dst], hs =>
+    match (splitOn1 us ',').mapM parseHandle?, parseNat? dst with
+    | some us, some dst =>
+      if id = dst || us.length != hs.length then (s, "err BAD-LINE") else
+      runX s id dst sched withLog fun src d =>
+        match aXCopyFromRun src d us hs with
+        | (r, st) => (r.map fun l => DRes.str (showAliased l), st)
+    | _, _ => (s, "err BAD-LINE")
+  | _, _, _ => (s, "err BAD-LINE")
+
 def stepLineA (s : ASess) (line : String) : ASess × String :=
   let fields := line.splitOn "\t"
   let (fields, sched) := match fields.getLast? with
@@ -367,7 +434,9 @@ def stepLineA (s : ASess) (line : String) : ASess × String :=
             aCopyVars a.m.tbl (splitOn1 names ','); return .unit)
           else runA2 s id dst fun src => do aCopyVars src.m.tbl (splitOn1 names ','); return .unit
         | none => (s, "err BAD-LINE")
-      | _, _, _ => runA s id sched (stepA op args outs)
+      | _, _, _ =>
+        if isXCopyOp op then stepXCopy s id sched op args outs else
+        runA s id sched (stepA op args outs)
   | _ => (s, "err BAD-LINE")
 
 end DD
